@@ -86,14 +86,14 @@ impl T {
     fn is_lit(&self) -> bool {
         matches!(self, T::I(_))
     }
-    /// the model's `wf`: a literal is never the receiver of a postfix operation
+    /// the model's `wf`: a literal is never called directly (it may be the receiver of `.f` / `.0`)
     fn wf(&self) -> bool {
         match self {
             T::V(_) | T::I(_) => true,
             T::U(_, e) => e.wf(),
             T::B(_, l, r) => l.wf() && r.wf(),
             T::C(f, args) => !f.is_lit() && f.wf() && args.iter().all(|x| x.wf()),
-            T::F(e, _) | T::P(e, _) => !e.is_lit() && e.wf(),
+            T::F(e, _) | T::P(e, _) => e.wf(),
         }
     }
     fn kind(&self) -> &'static str {
@@ -190,7 +190,7 @@ fn random_tree(rng: &mut Rng, depth: u32) -> T {
         };
     }
     let d = depth - 1;
-    // receivers of postfix operations are never literals (model `wf`)
+    // a literal is never called directly (model `wf`)
     let recv = |rng: &mut Rng| loop {
         let t = random_tree(rng, d);
         if !t.is_lit() {
@@ -205,8 +205,9 @@ fn random_tree(rng: &mut Rng, depth: u32) -> T {
             let k = rng.below(4);
             T::C(Box::new(f), (0..k).map(|_| random_tree(rng, d)).collect())
         }
-        8 => T::F(Box::new(recv(rng)), POOL[rng.below(POOL.len())].to_string()),
-        _ => T::P(Box::new(recv(rng)), [0usize, 1, 2, 10][rng.below(4)]),
+        // a literal may be the receiver of `.field` / `.index` (only calling it is a diagnostic)
+        8 => T::F(Box::new(random_tree(rng, d)), POOL[rng.below(POOL.len())].to_string()),
+        _ => T::P(Box::new(random_tree(rng, d)), [0usize, 1, 2, 10][rng.below(4)]),
     }
 }
 
@@ -421,14 +422,58 @@ fn dump_expr(e: &ast::Expr) -> S {
         EField { expr, field, .. } => tagged("f", vec![dump_expr(expr), a(&field.0)]),
         EProj { tuple, index, .. } => tagged("p", vec![dump_expr(tuple), n(index)]),
         other => {
-            let dbg = format!("{:?}", other);
-            let kind: String = dbg.chars().take_while(|c| c.is_alphanumeric()).collect();
-            tagged("other", vec![a(kind)])
+            // every other expression form (literals of each kind, tuples, arrays, struct literals,
+            // constructor applications, if / match / while / closures, …): its `Debug` text without
+            // the source positions, so that two spellings of the same tree dump identically
+            let dbg = strip_astptr(&format!("{:?}", other));
+            tagged("other", vec![a(dbg)])
         }
     }
 }
 
-const WRAP_PRE: &str = "fn t() -> unit {\n    let r =\n";
+/// remove every `astptr: … { … }` (balanced braces) and `astptr: None` from a `Debug` rendering
+fn strip_astptr(dbg: &str) -> String {
+    let b = dbg.as_bytes();
+    let mut out = String::new();
+    let mut i = 0usize;
+    while i < b.len() {
+        if dbg[i..].starts_with("astptr: ") {
+            let mut j = i + 8;
+            // up to the first `{` or `,`/`}` (for `None`)
+            while j < b.len() && b[j] != b'{' && b[j] != b',' && b[j] != b'}' {
+                j += 1;
+            }
+            if j < b.len() && b[j] == b'{' {
+                let mut depth = 0i32;
+                while j < b.len() {
+                    if b[j] == b'{' {
+                        depth += 1;
+                    } else if b[j] == b'}' {
+                        depth -= 1;
+                        if depth == 0 {
+                            j += 1;
+                            break;
+                        }
+                    }
+                    j += 1;
+                }
+                // `Some(MySyntaxNodePtr { … })`: swallow the closing parenthesis of `Some(`
+                if j < b.len() && b[j] == b')' {
+                    j += 1;
+                }
+            }
+            out.push_str("@");
+            i = j;
+        } else {
+            let ch = dbg[i..].chars().next().unwrap();
+            out.push(ch);
+            i += ch.len_utf8();
+        }
+    }
+    out
+}
+
+const WRAP_PRE: &str = "enum Ctor { Foo(int32), Bar }\nfn t() -> unit {\n    let r =\n";
 const WRAP_POST: &str = "\n;\n    ()\n}\n";
 
 /// parse `expr_text` in a function body with the real parser + lowering; the tree of the
